@@ -318,6 +318,8 @@ def describe(tier, agg):
             'no exception is injected inside a stage: the property promises nothing about a '
             'stage that dies half-way',
             'scenes whose canonical run raises are not used (counted as scenes_discarded)',
+            '60% of the scenes carry a seeded per-call assignment over 1-5 further leaves '
+            '(half of the multi-ceilometer ones an exclusion list naming an existing ceilometer)',
         ],
         'extra': {
             'model_state_x_op_covered': len(covered),
